@@ -81,7 +81,7 @@ class IoPart(Part):
             return "0,1,0"
         fields = case.split(";")
         cfg = nums(fields[0]) + [0] * 8
-        ops = [o for o in (nums(f) for f in fields[1:]) if o]
+        ops = [nums(f) or [0] for f in fields[1:]]      # an empty field (shrunk case) does nothing: benign op 0
         steps = self.parse(obs)
         for i, (fin, pending, _tm, codes, _w) in enumerate(steps):
             stops = [c for c in codes if 10 <= c < 40]
@@ -96,7 +96,7 @@ class IoPart(Part):
         if cfg[1] in (0, 1):
             for i, op in enumerate(ops):
                 benign = ((op[0] == 1 and 255 not in op[1:] and all(b < 200 for b in op[1:])) or
-                          (op[0] == 2 and all(r in (0, 1) for r in op[2::2])) or op[0] in (5, 11))
+                          (op[0] == 2 and all(r in (0, 1) for r in op[2::2])) or op[0] in (0, 5, 11))
                 if benign:
                     continue
                 want = None
@@ -276,7 +276,7 @@ def known_signature(part, case, impl_obs, oracle):
     f = oracle.split(",")
     if len(f) < 3 or f[0] != "0":
         return None
-    ops = [o for o in (nums(x) for x in case.split(";")[1:]) if o]
+    ops = [nums(x) or [0] for x in case.split(";")[1:]]
     step = int(f[2])
     if f[1] == "3" and any(op[:2] == [10, 1] for op in ops[:step + 1]):
         # `ready!(control.poll_ready(cx))?`: the control service's own readiness error ends the task at once
